@@ -1,2 +1,17 @@
 -- Root of the `MakoModel` library: every property module.
+import MakoModel.Props.C01
+import MakoModel.Props.C02
+import MakoModel.Props.C04
+import MakoModel.Props.C06
+import MakoModel.Props.C07
+import MakoModel.Props.C08
 import MakoModel.Props.C09
+import MakoModel.Props.C10
+import MakoModel.Props.C12
+import MakoModel.Props.C13
+import MakoModel.Props.C14
+import MakoModel.Props.C15
+import MakoModel.Props.C16
+import MakoModel.Props.C17
+import MakoModel.Props.C18
+import MakoModel.Props.C20
